@@ -87,5 +87,9 @@ def check(ctx, alphabet=None):
     # R3: the flags published in the tables are exactly significant_cloud(okta column), nothing rewrites them
     from sa.rules import metarize
     metarize.sorted_before_significance(ctx, 'C17-R3')
+    from sa.rules import significance, exceptions
+    significance.only_metarize_writes_flags(ctx, 'C17-R4')
+    # R5: significant_cloud is decorated: the decorator hands it the caller's arguments, untouched, and returns its result
+    exceptions.decorators_pass_through(ctx, 'C17-R5')
     ctx.assumptions += ['okta values are integers (alphabet above); Python int/bool/list semantics '
                         'of the supported subset as encoded in sa/fold.py']
